@@ -43,14 +43,19 @@ def load_known() -> list:
     return data.get("known", [])
 
 
-def match_known(f: Finding, known: list):
+def match_known(f: Finding, known: list, functions=None):
+    """A finding is a listed one when rule, function and construct agree.  When the listed function
+    no longer exists in the analysed tree (`functions` = its qualified names: the code was moved or
+    renamed) the same rule and construct in the same module still identify the listed defect."""
     for k in known:
         if k.get("property") != f.prop or k.get("rule") != f.rule:
             continue
-        if k.get("function") and k["function"] != f.function:
-            continue
         if k.get("construct") and k["construct"] != f.construct:
             continue
+        if k.get("function") and k["function"] != f.function:
+            moved = functions is not None and k["function"] not in functions and k["function"].split(".")[0] == f.function.split(".")[0]
+            if not (moved and k.get("construct")):
+                continue
         return k
     return None
 
@@ -177,7 +182,7 @@ def run_property(prop: str, root: str = "/repo", thorough: bool = False) -> int:
     known = load_known()
     new, listed = [], []
     for f in ctx.findings:
-        k = match_known(f, known)
+        k = match_known(f, known, set(ctx.model.functions))
         if k is not None:
             listed.append((f, k))
         else:
